@@ -185,21 +185,34 @@ structure DynObs where
   series : List Signal
   deriving Repr, Inhabited
 
+def sig0Nodes : Option Signal → List Xml
+  | some s => [signalNode "initialSignalState" s]
+  | none => []
+
+def predNodes (p : Nat) : Prediction → List Xml
+  | .none => []
+  | .traj sts => [trajNode p sts]
+  | .occ os => [occSetNode p os]
+
+/-- the signal series is written if it exists and is not empty -/
+def seriesNodes (ss : List Signal) : List Xml :=
+  if ss.isEmpty then [] else [el "signalSeries" (ss.map (signalNode "signalState"))]
+
 /-- DynamicObstacleXMLNode.create_node -/
 def dynNode (p : Nat) (o : DynObs) : Xml :=
   .node "dynamicObstacle" (idAttr o.id) [] ([leaf "type" o.type.toList, el "shape" (shapeNodes p true o.shape),
-    stateNode p "initialState" o.init] ++
-    (match o.sig0 with | some s => [signalNode "initialSignalState" s] | none => []) ++
-    (match o.pred with | .none => [] | .traj sts => [trajNode p sts] | .occ os => [occSetNode p os]) ++
-    (if o.series.isEmpty then [] else [el "signalSeries" (o.series.map (signalNode "signalState"))]))
+    stateNode p "initialState" o.init] ++ sig0Nodes o.sig0 ++ predNodes p o.pred ++ seriesNodes o.series)
 
 structure PhantomObs where
   id : Int
   occ : Option (List Occ)
   deriving Repr, Inhabited
 
-def phantomNode (p : Nat) (o : PhantomObs) : Xml :=
-  .node "phantomObstacle" (idAttr o.id) [] (match o.occ with | some os => [occSetNode p os] | none => [])
+def optOccSetNodes (p : Nat) : Option (List Occ) → List Xml
+  | some os => [occSetNode p os]
+  | none => []
+
+def phantomNode (p : Nat) (o : PhantomObs) : Xml := .node "phantomObstacle" (idAttr o.id) [] (optOccSetNodes p o.occ)
 
 structure EnvObs where
   id : Int
